@@ -240,4 +240,256 @@ Section Find.
     unfold find. destruct (find_down rank dflt (height (root t)) (root t) e) as [[p|] lg];
       cbn [snd] in *; exact Hc.
   Qed.
+  (* ---------------------------------------------------------------- iter_get at a valid path *)
+  Lemma getp_pos : forall p h (n : node), kids_ok L I h n -> valid n p ->
+    pos n p < length (elements n) /\ getp n p = nth (pos n p) (elements n) dflt.
+  Proof.
+    induction p as [|i q IH]; intros h n Hk Hv; [destruct Hv|].
+    destruct h as [|h]; [destruct Hk|].
+    destruct q as [|j q'].
+    - rewrite valid_one in Hv. rewrite getp_one. destruct n as [vs|vs cs].
+      + rewrite pos_one_leaf. cbn [elements vals]. unfold n_vals in Hv; cbn [vals] in Hv. auto.
+      + rewrite pos_one_inode. unfold n_vals in Hv; cbn [vals] in Hv. cbn [vals].
+        destruct (nth_sep vs cs i (kids_len _ _ _ Hk) Hv) as [H1 H2]. rewrite H2. auto.
+    - rewrite valid_cons in Hv by discriminate. destruct Hv as (Hleaf & Hi & Hv).
+      destruct n as [vs|vs cs]; [discriminate|].
+      rewrite pos_cons_inode, getp_cons by discriminate.
+      unfold child in *; cbn [children] in *. unfold n_vals in Hi; cbn [vals] in Hi.
+      destruct (kid_ok h vs cs i Hk Hi) as [Hkc _].
+      destruct (IH h _ Hkc Hv) as [H1 H2].
+      destruct (nth_in_child vs cs i _ (kids_len _ _ _ Hk) Hi H1) as [H3 H4]. rewrite H4. auto.
+  Qed.
+
+  (* local version of get_pos (BTreeProofsIter) *)
+  Lemma get_pos_local : forall (r : node) p, shape_ok L I r -> valid r p ->
+    pos r p < length (elements r) /\ iter_get dflt r (IAt p) = nth (pos r p) (elements r) dflt.
+  Proof. intros r p [h [Hk _]] Hv. rewrite iter_get_getp. apply (getp_pos p h r Hk Hv). Qed.
+
+  (* ---------------------------------------------------------------- counting the elements below the key *)
+  Definition isLt (c : comparison) : bool := match c with Lt => true | _ => false end.
+  Definition cntLt (ck : elt -> comparison) (l : list elt) : nat :=
+    length (filter (fun x => isLt (ck x)) l).
+
+  Lemma cnt_app : forall ck l1 l2, cntLt ck (l1 ++ l2) = cntLt ck l1 + cntLt ck l2.
+  Proof. intros. unfold cntLt. rewrite filter_app, app_length. reflexivity. Qed.
+
+  Lemma cnt_cons : forall ck a l, cntLt ck (a :: l) = (if isLt (ck a) then 1 else 0) + cntLt ck l.
+  Proof. intros. unfold cntLt. cbn [filter]. destruct (isLt (ck a)); reflexivity. Qed.
+
+  Lemma cnt_all : forall ck l, (forall x, In x l -> ck x = Lt) -> cntLt ck l = length l.
+  Proof.
+    intros ck. induction l as [|a l IH]; intros H; [reflexivity|].
+    rewrite cnt_cons, (H a (or_introl eq_refl)). cbn [isLt length].
+    rewrite IH; [lia|]. intros x Hx. apply H. right. exact Hx.
+  Qed.
+
+  Lemma cnt_none : forall ck l, (forall x, In x l -> ck x <> Lt) -> cntLt ck l = 0.
+  Proof.
+    intros ck. induction l as [|a l IH]; intros H; [reflexivity|].
+    rewrite cnt_cons. pose proof (H a (or_introl eq_refl)) as Ha.
+    rewrite IH; [|intros x Hx; apply H; right; exact Hx].
+    destruct (ck a); [reflexivity|congruence|reflexivity].
+  Qed.
+
+  Lemma cnt_le : forall ck l, cntLt ck l <= length l.
+  Proof.
+    intros ck. induction l as [|a l IH]; [reflexivity|].
+    rewrite cnt_cons. cbn [length]. destruct (isLt (ck a)); lia.
+  Qed.
+
+  Lemma cnt_split : forall ck vs i, i <= length vs ->
+    (forall j, j < i -> ck (nth j vs dflt) = Lt) ->
+    (forall j, i <= j < length vs -> ck (nth j vs dflt) <> Lt) ->
+    cntLt ck vs = i.
+  Proof.
+    intros ck. induction vs as [|a vs IH]; intros i Hi Hlo Hhi.
+    - cbn [length] in Hi. assert (i = 0) by lia. subst. reflexivity.
+    - destruct i as [|i].
+      + apply cnt_none. intros x Hx. destruct (In_nth _ _ dflt Hx) as (j & Hj & <-). apply Hhi. lia.
+      + rewrite cnt_cons. pose proof (Hlo 0 ltac:(lia)) as H0. cbn [nth] in H0. rewrite H0. cbn [isLt].
+        rewrite (IH i).
+        * lia.
+        * cbn [length] in Hi. lia.
+        * intros j Hj. apply (Hlo (S j)). lia.
+        * intros j Hj. apply (Hhi (S j)). cbn [length]. lia.
+  Qed.
+
+  Lemma cnt_inode : forall ck (vs : list elt) cs i, length cs = S (length vs) -> i <= length vs ->
+    mono ck (elements (Inode vs cs)) ->
+    (forall j, j < i -> ck (nth j vs dflt) = Lt) ->
+    (forall j, i <= j < length vs -> ck (nth j vs dflt) <> Lt) ->
+    cntLt ck (elements (Inode vs cs)) = length (pre vs cs i) + cntLt ck (elements (nth i cs dnode)) /\
+    length (elements (Inode vs cs)) =
+      length (pre vs cs i) + length (elements (nth i cs dnode)) + length (post vs cs i).
+  Proof.
+    intros ck vs cs i Hl Hi Hm Hlo Hhi.
+    pose proof (sep_pre _ rank dflt ck vs cs i Hl Hi Hm Hlo) as Hpre.
+    pose proof (sep_post_nlt _ rank dflt ck vs cs i Hl Hi Hm Hhi) as Hpost.
+    rewrite (elements_split _ rank dflt vs cs i) by lia.
+    rewrite !cnt_app, !app_length. rewrite (cnt_all _ _ Hpre), (cnt_none _ _ Hpost). lia.
+  Qed.
+
+  (* ---------------------------------------------------------------- zix_btree_lower_bound *)
+  (* the climb, as a recursion over the subtree: the path the frames fr resolve to inside n, or None
+     when they ran off the end of n *)
+  Fixpoint resolve (n : node) (fr : list nat) : option (list nat) :=
+    match fr with
+    | [] => None
+    | i :: q =>
+      match resolve (child n i) q with
+      | Some p => Some (i :: p)
+      | None => if i =? n_vals n then None else Some [i]
+      end
+    end.
+
+  Lemma lb_climb_cons : forall (r : node) i rest,
+    lb_climb r (i :: rest) =
+    if i =? n_vals (subnode r (rev rest)) then lb_climb r rest else IAt (rev (i :: rest)).
+  Proof.
+    intros. cbn [lb_climb]. destruct (i =? n_vals (subnode r (rev rest))); auto.
+    destruct rest; reflexivity.
+  Qed.
+
+  Lemma subnode_app : forall p (n : node) q, subnode n (p ++ q) = subnode (subnode n p) q.
+  Proof. induction p as [|i p IH]; intros n q; [reflexivity|]. cbn [app subnode]. apply IH. Qed.
+
+  Lemma lb_climb_resolve : forall (r : node) fr pfx,
+    lb_climb r (rev (pfx ++ fr)) =
+    match resolve (subnode r pfx) fr with
+    | Some p => IAt (pfx ++ p)
+    | None => lb_climb r (rev pfx)
+    end.
+  Proof.
+    intros r. induction fr as [|i q IH]; intros pfx.
+    - rewrite app_nil_r. reflexivity.
+    - replace (pfx ++ i :: q) with ((pfx ++ [i]) ++ q) by (rewrite <- app_assoc; reflexivity).
+      rewrite IH. cbn [resolve]. rewrite subnode_app. cbn [subnode].
+      destruct (resolve (child (subnode r pfx) i) q) as [p|].
+      + rewrite <- app_assoc. reflexivity.
+      + rewrite rev_app_distr. cbn [rev app]. rewrite lb_climb_cons. rewrite rev_involutive.
+        destruct (i =? n_vals (subnode r pfx)); auto.
+        cbn [rev]. rewrite rev_involutive. reflexivity.
+  Qed.
+
+  Lemma resolve_one : forall (n : node) i, resolve n [i] = if i =? n_vals n then None else Some [i].
+  Proof. reflexivity. Qed.
+
+  Definition lb_post (ck : elt -> comparison) (n : node) (r : option (list nat)) : Prop :=
+    match r with
+    | Some p => valid n p /\ pos n p = cntLt ck (elements n) /\
+                cntLt ck (elements n) < length (elements n)
+    | None => cntLt ck (elements n) = length (elements n)
+    end.
+
+  Lemma lb_down_spec : forall h (n : node) ck, kids_ok L I h n -> mono ck (elements n) ->
+    forall fr eq lg, lb_down dflt h n ck = (fr, eq, lg) ->
+    lb_post ck n (resolve n fr) /\ (eq = true -> resolve n fr = Some fr) /\
+    (forall x, In x lg -> In x (elements n)).
+  Proof.
+    induction h as [|h IH]; intros n ck Hk Hm fr eq lg E; [destruct Hk|].
+    destruct n as [vs|vs cs].
+    - cbn [lb_down] in E. cbn [elements] in Hm.
+      pose proof (find_pattern_spec _ rank dflt ck vs Hm) as Hs.
+      destruct (find_pattern dflt ck vs) as [[i e0] lg0].
+      injection E as <- <- <-.
+      destruct Hs as (H1 & H2 & H3 & H4 & H5 & H6 & _).
+      rewrite resolve_one. unfold n_vals. cbn [vals elements].
+      pose proof (cnt_split ck vs i H1 H2 H3) as Hc.
+      split; [|split].
+      + destruct (Nat.eqb_spec i (length vs)) as [Heq|Hne]; unfold lb_post; cbn [elements].
+        * lia.
+        * rewrite valid_one, pos_one_leaf. unfold n_vals. cbn [vals]. lia.
+      + intros He. destruct (H4 He) as [Hi _].
+        destruct (Nat.eqb_spec i (length vs)); [lia|reflexivity].
+      + exact H6.
+    - pose proof (kids_len _ _ _ Hk) as Hl.
+      cbn [lb_down] in E.
+      pose proof (find_pattern_spec _ rank dflt ck vs (mono_vals _ rank dflt ck vs cs Hl Hm)) as Hs.
+      destruct (find_pattern dflt ck vs) as [[i e0] lg0].
+      destruct Hs as (H1 & H2 & H3 & _ & _ & H6 & _).
+      destruct (kid_ok h vs cs i Hk H1) as [Hkc _].
+      pose proof (mono_child _ rank dflt ck vs cs i Hl H1 Hm) as Hmc.
+      destruct (lb_down dflt h (nth i cs dnode) ck) as [[fr' eq'] lg2] eqn:E2.
+      injection E as <- <- <-.
+      destruct (IH _ ck Hkc Hmc _ _ _ E2) as (Hp & He & Hlg).
+      destruct (cnt_inode ck vs cs i Hl H1 Hm H2 H3) as [Hcnt Hlen].
+      cbn [resolve]. unfold child. cbn [children]. unfold n_vals. cbn [vals].
+      pose proof (cnt_le ck (elements (nth i cs dnode))) as Hle.
+      split; [|split].
+      + destruct (resolve (nth i cs dnode) fr') as [p|]; unfold lb_post in *.
+        * destruct Hp as (Hv & Hpos & Hlt). pose proof (valid_nonnil _ _ Hv) as Hne.
+          rewrite valid_cons, pos_cons_inode by assumption.
+          unfold child. cbn [children is_leaf]. unfold n_vals. cbn [vals].
+          repeat split; auto; lia.
+        * destruct (Nat.eqb_spec i (length vs)) as [Heq|Hne].
+          -- rewrite (post_end _ rank dflt vs cs i) in Hlen by lia. cbn [length] in Hlen. lia.
+          -- rewrite (post_step _ rank dflt vs cs i) in Hlen by lia. cbn [length] in Hlen.
+             rewrite valid_one, pos_one_inode. unfold n_vals. cbn [vals]. lia.
+      + intros Ht. rewrite (He Ht). reflexivity.
+      + intros x Hx. apply in_app_or in Hx as [Hx|Hx].
+        * apply (in_vals_elements _ rank dflt); auto.
+        * apply (in_child_elements _ rank dflt vs cs i); auto.
+  Qed.
+
+  Theorem lower_bound_pos : forall (t : tree) ck, Inv rank L I t -> monotone elt ck (elements (root t)) ->
+    let '(it, lg) := lower_bound dflt t ck in
+    iter_valid (root t) it /\
+    iter_pos (root t) it =
+      (let k := length (filter (fun x => match ck x with Lt => true | _ => false end) (elements (root t))) in
+       if k <? length (elements (root t)) then Some k else None) /\
+    (forall x, In x lg -> In x (elements (root t))).
+  Proof.
+    intros t ck Hinv Hm. destruct (Inv_root t Hinv) as (Hk & _ & _).
+    unfold lower_bound.
+    destruct (lb_down dflt (height (root t)) (root t) ck) as [[fr eq] lg] eqn:E.
+    destruct (lb_down_spec _ _ ck Hk Hm _ _ _ E) as (Hp & He & Hlg).
+    change (length (filter (fun x => match ck x with Lt => true | _ => false end) (elements (root t))))
+      with (cntLt ck (elements (root t))). cbv zeta.
+    assert (Hit : (if eq then IAt fr else lb_climb (root t) (rev fr)) =
+                  match resolve (root t) fr with Some p => IAt p | None => IEnd end).
+    { destruct eq.
+      - rewrite (He eq_refl). reflexivity.
+      - apply (lb_climb_resolve (root t) fr []). }
+    rewrite Hit. split; [|split]; [| |exact Hlg].
+    - destruct (resolve (root t) fr) as [p|]; cbn [iter_valid]; [apply Hp|exact Logic.I].
+    - destruct (resolve (root t) fr) as [p|]; unfold lb_post in Hp; cbn [iter_pos].
+      + destruct Hp as (_ & Hpos & Hlt). rewrite Hpos.
+        destruct (Nat.ltb_spec (cntLt ck (elements (root t))) (length (elements (root t)))); [reflexivity|lia].
+      + destruct (Nat.ltb_spec (cntLt ck (elements (root t))) (length (elements (root t)))); [lia|reflexivity].
+  Qed.
+
+  (* with a monotone comparator the lower bound is the element after all the Lt ones *)
+  Lemma lower_bound_nth : forall ck l, mono ck l ->
+    set_lower_bound elt ck l = nth_error l (cntLt ck l).
+  Proof.
+    intros ck. unfold set_lower_bound. induction l as [|a l IH]; intros Hm; [reflexivity|].
+    destruct Hm as [Hm1 Hm2]. rewrite cnt_cons. cbn [List.find].
+    destruct (ck a) eqn:Ea; cbn [not_lt isLt].
+    - rewrite (cnt_none ck l); [reflexivity|].
+      intros x Hx. specialize (Hm1 x Hx). destruct (ck x); cbn in Hm1; try discriminate; tauto.
+    - cbn [Nat.add nth_error]. apply IH. exact Hm2.
+    - rewrite (cnt_none ck l); [reflexivity|].
+      intros x Hx. specialize (Hm1 x Hx). destruct (ck x); cbn in Hm1; try discriminate; tauto.
+  Qed.
+
+  Corollary lower_bound_least : forall (t : tree) ck, Inv rank L I t -> monotone elt ck (elements (root t)) ->
+    match set_lower_bound elt ck (elements (root t)) with
+    | Some x => exists p, fst (lower_bound dflt t ck) = IAt p /\ iter_get dflt (root t) (IAt p) = x
+    | None => fst (lower_bound dflt t ck) = IEnd
+    end.
+  Proof.
+    intros t ck Hinv Hm. pose proof (lower_bound_pos t ck Hinv Hm) as H.
+    destruct (lower_bound dflt t ck) as [it lg]. destruct H as (Hv & Hp & _). cbn [fst].
+    change (length (filter (fun x => match ck x with Lt => true | _ => false end) (elements (root t))))
+      with (cntLt ck (elements (root t))) in Hp. cbv zeta in Hp.
+    rewrite (lower_bound_nth ck _ Hm).
+    destruct (Nat.ltb_spec (cntLt ck (elements (root t))) (length (elements (root t)))) as [Hlt|Hge].
+    - rewrite (nth_error_nth' _ dflt Hlt).
+      destruct it as [|p]; cbn [iter_pos] in Hp; [discriminate|]. injection Hp as Hp.
+      exists p. split; [reflexivity|]. cbn [iter_valid] in Hv.
+      destruct (get_pos_local (root t) p (Inv_shape _ rank dflt L I HI HI3 t Hinv) Hv) as [_ Hg].
+      rewrite Hg, Hp. reflexivity.
+    - destruct it as [|p]; cbn [iter_pos] in Hp; [|discriminate].
+      apply nth_error_None in Hge. rewrite Hge. reflexivity.
+  Qed.
 End Find.
